@@ -124,11 +124,17 @@ pub fn qok<T: serde::Serialize>(t: &T) -> QuerierResult {
     SystemResult::Ok(ContractResult::Ok(to_json_binary(t).unwrap()))
 }
 
+/// validators 1..9 are "val1".."val9", 10.. are "valA", "valB", ...: byte order of the names = numeric order of the ids
+/// (the registry and the staking queries iterate addresses in byte order, the specification in id order)
 pub fn val_name(v: u64) -> String {
-    format!("val{}", v)
+    if v < 10 { format!("val{}", v) } else { format!("val{}", (b'A' + (v - 10) as u8) as char) }
 }
 pub fn val_index(name: &str) -> u64 {
-    name.strip_prefix("val").and_then(|s| s.parse().ok()).unwrap_or(0)
+    match name.strip_prefix("val") {
+        Some(s) if s.len() == 1 && s.as_bytes()[0].is_ascii_uppercase() => 10 + (s.as_bytes()[0] - b'A') as u64,
+        Some(s) => s.parse().ok().unwrap_or(0),
+        None => 0,
+    }
 }
 
 /// swap stub (spec/Queries.tla SwapOut): usei -> x at price, kusd -> x at 1/price, other coins 1:1
